@@ -2,7 +2,7 @@
    (real state before, operation, real result code, real state after).  Search support for locating a
    concrete failing input when a proof obligation or the correspondence breaks; never a proof. *)
 From MelVerif Require Export Cases.StfLib.
-From MelVerif Require Import STF.Proofs.Supply STF.Proofs.BatchSupply STF.Proofs.StdCovenant.
+From MelVerif Require Import STF.Proofs.Supply STF.Proofs.BatchSupply STF.Proofs.StdCovenant STF.Proofs.SealSupply STF.Proofs.SealLift.
 Open Scope N_scope.
 
 (* ---------------------------------------------------------------- supply (C01) *)
@@ -258,10 +258,26 @@ Definition swaps_fair (pre post : wstate) : bool :=
     | None => true
     end) (pool_keys_sorted reqs).
 
+(* the conclusion of C01_seal_unpegged / C16_seal_keeps_custom_backing, with the theorem's own definitions
+   ([psum], [liq_of], [bootstrap] of STF/Proofs/SealLift.v), evaluated on the real states of a seal: K is the
+   list of pools of the sealed state whose names decode and re-encode to their keys *)
+Definition pools_named (s : wstate) : list (denom * denom) :=
+  omap (fun kp => match pool_sides (fst kp) with
+                  | Some k => if poolkey_code k =? fst kp then Some k else None
+                  | None => None end) (map_to_list (s_pools s)).
+Definition unpegged_b (d : denom) : bool := negb (denom_eqb d Mel) && negb (denom_eqb d Sym).
+Definition seal_settles_b (SO : stf_oracle) (pre post : wstate) (d : denom) : bool :=
+  let K := pools_named post in
+  coin_supply d (s_coins post) + psum K d post + liq_of K SO d pre
+  <=? coin_supply d (s_coins pre) + psum K d pre + liq_of K SO d post + bootstrap K d pre.
+
 Definition reflect_seal (SO : stf_oracle) (pre post : wstate) (a : option action) : list (N * N) :=
   let ds := state_denoms pre (state_denoms post [Mel; Sym; Erg]) in
+  let legacy := legacy_net pre && (s_height pre <? 978392) in
   (* C01 *)
   flat_map (fun d => flag 1 (supply d post <=? supply d pre + seal_issuance SO d pre) 2) ds
+  ++ flag 1 (legacy || forallb (fun d => negb (unpegged_b d) || seal_settles_b SO pre post d) ds) 5
+  ++ flag 16 (legacy || forallb (fun d => match d with Custom _ => seal_settles_b SO pre post d | _ => true end) ds) 3
   (* C05 *)
   ++ (let rk := coin_key (so_reward_id SO (s_height pre)) 0 in
       match a with
